@@ -152,6 +152,25 @@ def run(ctx):
             items6.append((form % ch, None))
     if not judge(ctx, spec, items6, 'G6'):
         return
+    # G7: line-structured statements - every statement head that is followed by a sub-statement x every separator (the five
+    # line terminator sequences, a blank, nothing) x every way a statement starts (prefix ++ / --, unary operators, brackets,
+    # keywords, regex, function): semicolon insertion and the restricted productions must not fire between a head and its body
+    items7 = []
+    heads7 = ['if (a)', 'while (a)', 'for (;;)', 'for (k in o)', 'with (a)', 'if (a) b; else', 'do', 'l:', 'if (a) {} else',
+              'for (var i = 0; i < n; i++)', 'switch (a) { case 1:', 'try {', '{', 'function g() {', 'if (f(a))', 'while ((a))']
+    tails7 = {'do': ' while (c);', 'switch (a) { case 1:': ' }', 'try {': ' } finally {}', '{': ' }', 'function g() {': ' }'}
+    starts7 = ['++b;', '--b;', '+b;', '-b;', '!b;', '~b;', '(b);', '[b];', 'b;', 'b++;', '{ b }', 'typeof b;', 'void 0;', 'new b;',
+               '/r/.test(b);', 'function f(){}', ';', 'var c;', 'this.b;', '"s";', '1;', 'delete b.c;', 'b\n++c;', 'b\n--c']
+    for h in heads7:
+        for sep in ('\n', '\r', '\r\n', '\u2028', '\u2029', ' ', '', '\n\n', ' \n ', '\n//c\n', '/*\n*/'):
+            for st in starts7:
+                if sep == '' and (h[-1:].isalnum() or h[-1:] == '_') and (st[:1].isalnum() or st[:1] in '_"'):
+                    continue
+                items7.append((h + sep + st + tails7.get(h, ''), None))
+    if ctx.tier != 'thorough':
+        items7 = rng.sample(items7, 1500)
+    if not judge(ctx, spec, items7, 'G7'):
+        return
     # the parse must not depend on the node factory the parser was configured with (the grammar actions go through
     # self.asttypes): a second, independent AstTypesFactory must give structurally identical trees
     if not factory_scenario(ctx):
